@@ -214,6 +214,8 @@ Proof.
   intros HI HC H. unfold send_event in H.
   destruct (String.eqb ev Ev_Done).
   { apply ret_inv in H. destruct H as (H & _ & ->). inversion H; subst. simpl. auto. }
+  destruct (next_state t (m_cur m) ev).
+  2:{ apply ret_inv in H. destruct H as (H & _ & ->). inversion H; subst. simpl. auto. }
   destruct ctx as [c|]; cbn [ctx_ok] in HC.
   - destruct HC as [HEinv HC].
     destruct (validate_ctx (m_data m) c) eqn:Hv; cbn [negb] in H.
@@ -221,7 +223,9 @@ Proof.
       * destruct (HC d' eq_refl eq_refl) as [HI1 HE1].
         exact (persist_then_loop_rule _ _ lp _ _ _ _ _ HI1 HE1 H).
       * apply ret_inv in H. destruct H as (H & _ & ->). inversion H; subst. simpl. auto.
-    + exact (persist_then_loop_rule _ _ lp _ _ _ _ _ HI HEinv H).
+    + unfold accepted_then_loop in H. destruct (next_state t (m_cur m) Ev_Invalid).
+      * exact (persist_then_loop_rule _ _ lp _ _ _ _ _ HI HEinv H).
+      * apply ret_inv in H. destruct H as (H & _ & ->). inversion H; subst. simpl. auto.
   - exact (persist_then_loop_rule _ _ lp _ _ _ _ _ HI HC H).
 Qed.
 
